@@ -1,7 +1,7 @@
 (* Properties_C10.v -- C10: read-only query functions answer as their standard counterparts do, and never modify
    their operands.  Models in ModQuery.v (tied to the C sources by the correspondence check on every run). *)
 From Coq Require Import List ZArith Bool Lia.
-From SC Require Import Base Wp Cfg Comb CombProofs ModQuery ProofsTs ProofsQuery.
+From SC Require Import Base Wp Cfg Comb CombProofs ModQuery ProofsTs ProofsQuery ProofsQuery2.
 Import ListNotations.
 Local Open Scope Z_scope.
 
@@ -72,3 +72,46 @@ Example C10_memcmp_example :
   let '(r, m', _) := exec (memcmp_s cfg_default 1000 2 2000 2 3000 BOS_UNKNOWN BOS_UNKNOWN) m in
   r = EOK /\ load m' 4 3000 = 1.
 Proof. vm_compute. split; reflexivity. Qed.
+
+(* ---- round 4: strprefix_s, strfirstdiff_s, strfirstsame_s, for every memory and every dmax ---- *)
+(* strprefix_s: EOK iff src is not empty and every src character before its terminator, among the first dmax, equals the
+   dest character at that index (is_prefix, characterised by is_prefix_spec); the operands are not modified *)
+Theorem C10_strprefix_s : forall c dest dmax src m, dest <> 0 -> src <> 0 -> 0 < dmax <= rmax_str c ->
+  wp (strprefix_s c dest dmax src BOS_UNKNOWN) m (fun r m' =>
+     m' = m /\ r = (if m src =? 0 then ESNOTFND else if is_prefix (Z.to_nat dmax) m dest src then EOK else ESNOTFND)).
+Proof. exact strprefix_s_spec. Qed.
+Print Assumptions C10_strprefix_s.
+Theorem C10_is_prefix_meaning : forall n m d s,
+  is_prefix n m d s = true <->
+  (forall j, 0 <= j < Z.of_nat n -> (forall i, 0 <= i <= j -> m (s + i) <> 0) -> m (d + j) = m (s + j)).
+Proof. exact is_prefix_spec. Qed.
+Print Assumptions C10_is_prefix_meaning.
+(* strfirstdiff_s (same = false) / strfirstsame_s (same = true): EOK and *resultp = the first index below dmax, before either
+   terminator, where the characters differ / agree (first_idx, characterised below); otherwise ESNODIFF / ESNOTFND and 0 *)
+Theorem C10_strfirst_s : forall same c dest dmax src resultp m,
+  resultp <> 0 -> dest <> 0 -> src <> 0 -> 0 < dmax <= rmax_str c -> dmax < 18446744073709551616 ->
+  (forall j, 0 <= j <= dmax -> ~ ext resultp 8 (dest + j) /\ ~ ext resultp 8 (src + j)) ->
+  wp (strfirst_s same c dest dmax src resultp BOS_UNKNOWN) m (fun r m' =>
+     match first_idx same (Z.to_nat dmax) m dest src 0 with
+     | Some k => r = EOK /\ load m' 8 resultp = k /\ 0 <= k < dmax
+     | None => r = nf same /\ load m' 8 resultp = 0
+     end /\ forall x, ~ ext resultp 8 x -> m' x = m x).
+Proof. exact strfirst_s_spec. Qed.
+Print Assumptions C10_strfirst_s.
+Theorem C10_first_idx_found : forall same n m d s i k, first_idx same n m d s i = Some k ->
+  i <= k < i + Z.of_nat n /\ m (d + (k - i)) <> 0 /\ m (s + (k - i)) <> 0 /\
+  Bool.eqb (m (d + (k - i)) =? m (s + (k - i))) same = true /\
+  forall j, 0 <= j < k - i -> m (d + j) <> 0 /\ m (s + j) <> 0 /\ Bool.eqb (m (d + j) =? m (s + j)) same = false.
+Proof. exact first_idx_some. Qed.
+Print Assumptions C10_first_idx_found.
+Theorem C10_first_idx_not_found : forall same n m d s i, first_idx same n m d s i = None ->
+  exists t, 0 <= t <= Z.of_nat n /\ (t = Z.of_nat n \/ m (d + t) = 0 \/ m (s + t) = 0) /\
+  forall j, 0 <= j < t -> m (d + j) <> 0 /\ m (s + j) <> 0 /\ Bool.eqb (m (d + j) =? m (s + j)) same = false.
+Proof. exact first_idx_none. Qed.
+Print Assumptions C10_first_idx_not_found.
+Example C10_strfirstdiff_example :
+  let m := fun a => if a =? 1000 then 97 else if a =? 1001 then 98 else if a =? 1002 then 99 else
+                    if a =? 2000 then 97 else if a =? 2001 then 98 else if a =? 2002 then 120 else 0 in
+  first_idx false 8 m 1000 2000 0 = Some 2 /\ is_prefix 2 m 1000 2000 = true /\ is_prefix 8 m 1000 2000 = false.
+Proof. vm_compute. repeat split; reflexivity. Qed.
+
